@@ -30,6 +30,7 @@ RULE = (
     "(key read from the live 'updated' snapshot) for which the worker is eligible and which could still accept it at "
     "the end of allocation; for a higher-priority facility task (single task of its component, flat product) the "
     "The simulation part also observes the inner run of backward_simulate() under the rule given to it, and a dense profile in which everybody can do everything. One spec in three has lived before (warm start): another model edited in place into this one or swapped into the old project object, or the model's own run cut short by max_time and then continued with one of the unequal initialize-flag combinations (state carried over and logs restarted, or state reset and logs appended), or a first run that does not initialize the logs. "
+    "A 'join' profile has long tasks that everybody can work on together and workers who come and go, so that freed workers meet tasks that are already WORKING. "
     "same with a FREE facility of the placed workplace that the worker can operate (pair form). Non-trivial = a list with a tie and >= 3 distinct keys (part 1) / a step where a worker "
     "eligible for >= 2 candidate tasks was allocated (part 2); distinct by case hash."
 )
@@ -136,16 +137,37 @@ def _sim_dense_pairs(draw, cfg):
     return {"kind": "sim", "spec": spec}
 
 
+CFG_JOIN = CFG_SIM.copy(facilities=False, min_tasks=2, max_tasks=4, max_workers=3, work_pool=[2.0, 3.0, 4.0, 6.0, 8.0], max_deps_factor=1, abs_p=1, abs_size=4, abs_max=8,
+                        abs_long=0, warm=0, unit_time=0, p_auto=0, tie_rich=0, progress=False, solo=False, fixed_ids=False, project_abs=False)
+
+
+@st.composite
+def _sim_join(draw, cfg):
+    """Long tasks that everybody can work on together, workers who come and go (own absences): a worker who becomes
+    free meets tasks that are already WORKING - whom he joins is a matter of priority, not of position in task_list."""
+    spec = draw(gen.model_spec(cfg))
+    n = len(spec["tasks"])
+    for tm in spec["teams"]:
+        tm["targets"] = list(range(n))
+        tm.pop("notask", None)
+    while len(spec["workers"]) < 2:
+        spec["workers"].append({"team": 0, "cost": 1.0, "solo": False, "skills": {}, "fsk": {}, "abs": draw(gen.abs_list(8, 4)), "mw": None})
+    for w in spec["workers"]:
+        w["skills"] = {str(i): draw(st.sampled_from([0.5, 1.0])) for i in range(n)}
+    gen.share_skills_by_name(spec)
+    return {"kind": "sim", "spec": spec}
+
+
 def strategy(tier):
     if tier == "quick":
-        return st.one_of(_lists(), _sim(CFG_SIM), _sim_pairs(CFG_PAIRS), _sim_dense_pairs(CFG_PAIRS))
+        return st.one_of(_lists(), _sim(CFG_SIM), _sim_pairs(CFG_PAIRS), _sim_dense_pairs(CFG_PAIRS), _sim_join(CFG_JOIN))
     return st.one_of(_lists(), _sim(CFG_SIM.copy(max_tasks=12, max_workers=6)), _sim_pairs(CFG_PAIRS.copy(max_tasks=9, max_workers=6)),
-                     _sim_dense_pairs(CFG_PAIRS.copy(max_tasks=9, max_workers=6)))
+                     _sim_dense_pairs(CFG_PAIRS.copy(max_tasks=9, max_workers=6)), _sim_join(CFG_JOIN.copy(max_tasks=6, max_workers=4)))
 
 
 def budget(tier):
     if tier == "quick":
-        return {"cases": 8000, "shards": 8}
+        return {"cases": 10000, "shards": 8}
     return {"cases": 200000, "shards": 16}
 
 
